@@ -21,7 +21,9 @@ RULE = (
 ASSUMPTIONS = [
     "x64: float64 inputs; application compared at rtol 1e-12, roots at "
     "(1e-10 + 1e3*u*lambda_max/gap) of the dense matrix's max entry in absolute "
-    "mode and 1e-4 in relative mode (ridge scaled by a power-iteration estimate)",
+    "mode and 1e-4 in relative mode (ridge scaled by a power-iteration estimate: "
+    "lambda_max when it converged, else the value power_iteration itself returns "
+    "on the same padded matrix - its absolute exit test can fire on iteration 2)",
     "_low_rank_root is always called with an integer padding_start, as every caller does",
 ]
 
@@ -197,6 +199,16 @@ def _root_fn(nt, rs, rel):
   return _JIT[key]
 
 
+def _pi_fn(nt):
+  import jax
+  from precondition import distributed_shampoo as ds
+  key = ("pi", nt)
+  if key not in _JIT:
+    _JIT[key] = jax.jit(lambda m, ps: ds.power_iteration(m, num_iters=100, error_tolerance=1e-6,
+                                                         precision=jax.lax.Precision.HIGHEST, padding_start=ps)[1])
+  return _JIT[key]
+
+
 def do_root(case):
   import jax.numpy as jnp
   from precondition import distributed_shampoo as ds
@@ -248,25 +260,43 @@ def do_root(case):
   # reference
   w, u = np.linalg.eigh(a)
   lmax = float(w[-1])
-  d = eps_arg * (max(lmax, 1e-6) if case["rel"] else 1.0)
-  f = (np.maximum(w, 0) + d) ** (-1.0 / p)
+  # Relative mode scales the ridge by power_iteration's estimate of lambda_max. Its exit test is an ABSOLUTE change
+  # of the Rayleigh quotient <= 1e-6, which also fires on the second iteration when the fixed start vector is
+  # nearly orthogonal to the top eigenvector (the quotient then still sits at the bulk eigenvalue). Which ridge the
+  # root "denotes" is therefore the estimate's, and the reference is built for both possible outcomes: the converged
+  # one (lambda_max) and the estimate the same routine returns when called on the same padded matrix.
+  estimates = [max(lmax, 1e-6)] if case["rel"] else [1.0]
+  if case["rel"]:
+    est = float(_pi_fn(nt)(jnp.asarray(mat), jnp.asarray(n, jnp.int32)))
+    if abs(est - lmax) > 1e-5 * lmax:
+      estimates.append(max(est, 1e-6))
   order = np.argsort(w)[::-1] if rs > 0 else np.argsort(w)
   keep, rest = order[:r], order[r:]
   uk = u[:, keep]
-  ref = (uk * f[keep]) @ uk.T + np.mean(f[rest]) * (np.eye(n) - uk @ uk.T)
   wk = np.sort(w)[::-1]
   gap = (wk[cut - 1] - wk[cut])
-  scale_ref = float(np.max(np.abs(ref)))
-  if case["rel"]:
-    tol = 1e-4 * scale_ref
-  else:
-    # eigenvector conditioning (gap at the cut) + conditioning of x -> (x+d)^(-1/p)
-    cond_f = lmax / (max(float(w[0]), 0.0) + d)
-    tol = (1e-10 + 1e3 * 2.0 ** -53 * (lmax / max(gap, 1e-300) + cond_f)) * scale_ref
-  diff = float(np.max(np.abs(dense - ref)))
+  best = None
+  for est in estimates:
+    d = eps_arg * est
+    f = (np.maximum(w, 0) + d) ** (-1.0 / p)
+    ref = (uk * f[keep]) @ uk.T + np.mean(f[rest]) * (np.eye(n) - uk @ uk.T)
+    scale_ref = float(np.max(np.abs(ref)))
+    if case["rel"]:
+      tol = 1e-4 * scale_ref
+    else:
+      # eigenvector conditioning (gap at the cut) + conditioning of x -> (x+d)^(-1/p)
+      cond_f = lmax / (max(float(w[0]), 0.0) + d)
+      tol = (1e-10 + 1e3 * 2.0 ** -53 * (lmax / max(gap, 1e-300) + cond_f)) * scale_ref
+    diff = float(np.max(np.abs(dense - ref)))
+    if best is None or diff / tol < best[0] / best[1]:
+      best = (diff, tol, scale_ref, float(np.mean(f[rest])), est)
+  diff, tol, scale_ref, cref, est = best
   require(diff <= tol, "root-equals-reference",
           f"n={n} pad={pad} r={rs} p={p} rel={case['rel']}: max diff {diff:.3g} > tol {tol:.3g} "
-          f"(max entry {scale_ref:.3g}, const {c:.6g} vs {np.mean(f[rest]):.6g})", ratio=diff / tol)
+          f"(max entry {scale_ref:.3g}, const {c:.6g} vs {cref:.6g}; ridge scale {est:.6g}, lambda_max {lmax:.6g})",
+          ratio=diff / tol)
+  if len(estimates) > 1 and est != estimates[0]:
+    return pad > 0 or rs < 0, diff / tol, True
   return pad > 0 or rs < 0, diff / tol
 
 
@@ -278,8 +308,10 @@ def check(case):
   elif k == "apply":
     nt = do_apply(case)
   else:
-    nt, ratio = do_root(case)
+    nt, ratio, *early = do_root(case)
   classes = [f"kind={k}"]
+  if k == "root" and early:
+    classes.append("power-iteration-stopped-early")
   if k == "root":
     classes += ["neg" if case["r"] < 0 else "pos", "padded" if case["pad"] else "unpadded",
                 "rel" if case["rel"] else "abs"]
